@@ -199,6 +199,23 @@ def directed() -> list[dict[str, Any]]:
                                                          'quiet': 6.0, 'horizon': 300.0, 'latency': 0.001, 'namespaces': ['ns1', 'ns2'], 'peering': {'name': 'default'},
                                                          'settings': {'queueing__idle_timeout': 1.0, 'watching__reconnect_backoff': 0.1}, 'operator_kwargs': {},
                                                          'extra_resources': [], 'kube': {}, 'end': 'stop', 'exit_wait': 60.0, 'mode': 'cluster', 'fatal': False, 'post_yields': yields, 'lag': None}})
+    # the next change of an object arrives at the very instant its idle per-object worker retires (idle_timeout after its previous event): it still
+    # reaches processing -- for every phase shift between the stream reader and the worker's timer, and one microsecond to either side
+    for yields in (0, 1, 2, 3, 5, 8):
+        for idle in (1.0, 0.5):
+            for eps in (-0.000001, 0.0, 0.000001):
+                for lat in (0.001, 0.25):
+                    # lat = the delivery lag of the watch events here: with a lag the release of the event is a TIMER of the same instant as the worker's
+                    # idle timeout (both count from the release of the previous event), which is how the two meet inside one loop iteration
+                    k += 1
+                    t1 = 6.0
+                    tl = [[0.0, 'create', 'ns1/o0', {'spec': {'x': 0}}], [0.5, 'start', 'op1'], [t1, 'edit', 'ns1/o0', {'spec': {'x': 1}}],
+                          [round(t1 + idle + eps, 6), 'edit', 'ns1/o0', {'spec': {'x': 2}}], [round(t1 + 2 * idle + eps, 6), 'edit', 'ns1/o0', {'spec': {'x': 3}}]]
+                    out.append({'name': f'diri{k}', 'desc': {'seed': k, 'handlers': [{'kind': 'event', 'id': 'ev'}, {'kind': 'event', 'id': 'evw', 'resource': 'kopfwidgets'}], 'timeline': tl,
+                                                             'quiet': 6.0, 'horizon': 300.0, 'latency': 0.001, 'namespaces': ['ns1', 'ns2'],
+                                                             'settings': {'queueing__idle_timeout': idle, 'watching__reconnect_backoff': 0.1}, 'operator_kwargs': {'namespaces': ['ns*']},
+                                                             'extra_resources': [], 'kube': {}, 'end': 'stop', 'exit_wait': 60.0, 'mode': 'pattern', 'fatal': False, 'post_yields': yields,
+                                                             'lag': {'values': [lat]}}})
     return out
 
 
